@@ -856,7 +856,9 @@ func (d *DotGit) ObjectsWithPrefix(prefix []byte) ([]plumbing.Hash, error) {
 				return bytes.Compare(d.objectList[i].Bytes(), limPrefix) >= 0
 			})
 		}
-		return d.objectList[first:lim], nil
+		// Cap the result at its own length: callers append to it, which must
+		// not write into the cached list's backing array.
+		return d.objectList[first:lim:lim], nil
 	}
 
 	// This is the slow path.
